@@ -31,5 +31,15 @@ if a not in s:
     s = s[:m.start()] + a + "\n" + m.group(0).rstrip("\n") + "\n" + b + "\n\n" + s[m.end():]
 i, j = s.index(a), s.index(b)
 s = s[:i] + a + "\n" + "\n".join(lines) + "\n" + s[j:]
+# per-property list of workload / monitor classes added because a seeded change was missed
+c, d = "<!-- ADDEDCLASSES -->", "<!-- /ADDEDCLASSES -->"
+if c in s:
+    out = []
+    for pid in sorted({k[:3] for k in notes}):
+        items = [f"{notes[k]} ({k})" for k in sorted(notes) if k.startswith(pid) and notes[k]]
+        if items:
+            out.append(f"* **{pid}**: " + "; ".join(items) + ".")
+    i, j = s.index(c), s.index(d)
+    s = s[:i] + c + "\n" + "\n".join(out) + "\n" + s[j:]
 open(P, "w").write(s)
 print(n, "seeds")
